@@ -340,4 +340,157 @@ theorem ecl_core_spec (l' b' eta pie p : ℝ) :
   unfold patan2
   rw [e1', e2', h1, h2, h3]
 
+/-! ### `Angle(0, 0, s)` is `s / 3600` degrees modulo 360 -/
+
+theorem ptrunc_of_nonneg {x : ℝ} (h : 0 ≤ x) : ptrunc x = ⌊x⌋ := by
+  unfold ptrunc; simp [h]
+
+/-- For non-negative seconds the sexagesimal reduction of `Angle(0, 0, s)` is `s / 3600` minus whole turns. -/
+theorem secCore_spec (x : ℝ) : ∃ q : ℤ, secCore x = x / 3600 - 360 * q := by
+  have e60 : (60.0 : ℝ) = 60 := by norm_num
+  have e3600 : (3600.0 : ℝ) = 3600 := by norm_num
+  unfold secCore
+  simp only [e60, e3600, ple, pmod, imod, ofInt]
+  by_cases h60 : (60 : ℝ) ≤ x
+  · have hdiv : (0 : ℝ) ≤ x / 60 := by positivity
+    simp only [h60, decide_true, if_true, ptrunc_of_nonneg hdiv]
+    set m : ℤ := ⌊x / 60⌋ with hm
+    have hm1 : (1 : ℤ) ≤ m := by
+      rw [hm]; apply Int.le_floor.mpr; rw [le_div_iff₀ (by norm_num)]; push_cast; linarith
+    by_cases hm60 : 60 ≤ m
+    · have hmd : (0 : ℝ) ≤ (m : ℝ) / 60 := by
+        have : (0 : ℝ) ≤ (m : ℝ) := by exact_mod_cast (by omega : (0 : ℤ) ≤ m)
+        positivity
+      have hfl : ⌊(m : ℝ) / 60⌋ = m / 60 := by
+        have := Int.floor_div_natCast (m : ℝ) 60
+        simpa using this
+      simp only [hm60, if_true, ptrunc_of_nonneg hmd, hfl]
+      refine ⟨(m / 60) / 360, ?_⟩
+      rw [Int.fmod_eq_emod_of_nonneg _ (by norm_num : (0 : ℤ) ≤ 360),
+          Int.fmod_eq_emod_of_nonneg _ (by norm_num : (0 : ℤ) ≤ 60), Int.emod_def, Int.emod_def]
+      push_cast
+      ring
+    · simp only [hm60, if_false]
+      refine ⟨0, ?_⟩
+      rw [Int.fmod_eq_emod_of_nonneg _ (by norm_num : (0 : ℤ) ≤ 360)]
+      simp
+      ring
+  · simp only [h60, decide_false, Bool.false_eq_true, if_false]
+    refine ⟨0, ?_⟩
+    simp [Int.fmod]
+
+/-- `Angle(0, 0, s)` is `s / 3600` degrees up to whole turns. -/
+theorem a_of_sec_spec (s : ℝ) : ∃ k : ℤ, a_of_sec s = s / 3600 + 360 * k := by
+  obtain ⟨q, hq⟩ := secCore_spec |s|
+  rw [a_of_sec_eq, hq]
+  by_cases h : s < 0
+  · have h1 : plt s 0.0 = true := by unfold plt; simp; linarith
+    refine ⟨q, ?_⟩
+    rw [h1, abs_of_neg h]; norm_num; ring
+  · have h1 : plt s 0.0 = false := by unfold plt; simp; linarith
+    refine ⟨-q, ?_⟩
+    rw [h1, abs_of_nonneg (not_lt.mp h)]; push_cast; norm_num; ring
+
+theorem rotZ_periodic (a : ℝ) (k : ℤ) (v : V3) : rotZ (a + k * (2 * π)) v = rotZ a v := by
+  unfold rotZ; rw [cos_add_int_mul_two_pi, sin_add_int_mul_two_pi]
+theorem rotY_periodic (a : ℝ) (k : ℤ) (v : V3) : rotY (a + k * (2 * π)) v = rotY a v := by
+  unfold rotY; rw [cos_add_int_mul_two_pi, sin_add_int_mul_two_pi]
+
+/-- The angle the source uses for `seconds` arcseconds acts as `seconds / 3600` degrees. -/
+theorem rad_a_of_sec (s : ℝ) : ∃ k : ℤ, rad (a_of_sec s) = rad (s / 3600) + k * (2 * π) := by
+  obtain ⟨k, hk⟩ := a_of_sec_spec s
+  exact ⟨k, by rw [hk, rad_add_turns]⟩
+
+/-- The precession rotation of the source is the rotation with Euler angles `polynomial / 3600` degrees. -/
+theorem precessionRot_fk5_poly (e0 e1 : ℝ) (v : V3) :
+    precessionRot (fk5Zeta e0 e1) (fk5Z e0 e1) (fk5Theta e0 e1) v =
+      precessionRot (rad (fk5_zeta ((e0 - 2451545.0) / 36525.0) ((e1 - e0) / 36525.0) / 3600))
+        (rad (fk5_z ((e0 - 2451545.0) / 36525.0) ((e1 - e0) / 36525.0) / 3600))
+        (rad (fk5_theta ((e0 - 2451545.0) / 36525.0) ((e1 - e0) / 36525.0) / 3600)) v := by
+  obtain ⟨k1, h1⟩ := rad_a_of_sec (fk5_zeta ((e0 - 2451545.0) / 36525.0) ((e1 - e0) / 36525.0))
+  obtain ⟨k2, h2⟩ := rad_a_of_sec (fk5_z ((e0 - 2451545.0) / 36525.0) ((e1 - e0) / 36525.0))
+  obtain ⟨k3, h3⟩ := rad_a_of_sec (fk5_theta ((e0 - 2451545.0) / 36525.0) ((e1 - e0) / 36525.0))
+  unfold fk5Zeta fk5Z fk5Theta precessionRot
+  rw [h1, h2, h3, rotZ_periodic, rotY_periodic, rotZ_periodic]
+
+/-! ### further small facts used by Props/C06 -/
+
+theorem flipZ_flipZ (a : ℝ) (v : V3) : flipZ a (flipZ a v) = v := by
+  unfold flipZ
+  ext
+  · simp only; linear_combination v.1 * sin_sq_add_cos_sq a
+  · simp only; linear_combination v.2.1 * sin_sq_add_cos_sq a
+  · rfl
+
+theorem rotX_zero (v : V3) : rotX 0 v = v := by unfold rotX; simp
+
+theorem ecl_zero (T : ℝ) : ecl_eta T 0 = 0 ∧ ecl_p T 0 = 0 := by
+  unfold ecl_eta ecl_p; simp
+
+/-! ### `motion_in_space` -/
+
+/-- Position after `t` years of uniform straight-line motion: `r u + t V`, with the velocity
+    `V = (v / 977792) u + r μδ north + r μα cos δ east` (parsecs per year; μ in radians per year). -/
+def spacePosition (α δ r v μα μδ t : ℝ) : V3 :=
+  let u := dir α δ
+  let n := northV α δ
+  let e := eastV α
+  let c := cos (rad δ)
+  (r * u.1 + t * (v / 977792 * u.1 + r * μδ * n.1 + r * μα * c * e.1),
+   r * u.2.1 + t * (v / 977792 * u.2.1 + r * μδ * n.2.1 + r * μα * c * e.2.1),
+   r * u.2.2 + t * (v / 977792 * u.2.2 + r * μδ * n.2.2 + r * μα * c * e.2.2))
+
+theorem motion_in_space_spec (α δ r v μα μδ t : ℝ) (hr : r ≠ 0)
+    (hρ : 0 < (spacePosition α δ r v (rad μα) (rad μδ) t).1 ^ 2 + (spacePosition α δ r v (rad μα) (rad μδ) t).2.1 ^ 2) :
+    ∃ ra dec, motion_in_space α δ r v μα μδ t = .ok (ra, dec) ∧
+      dir ra dec =
+        ((spacePosition α δ r v (rad μα) (rad μδ) t).1 / √(dot (spacePosition α δ r v (rad μα) (rad μδ) t) (spacePosition α δ r v (rad μα) (rad μδ) t)),
+         (spacePosition α δ r v (rad μα) (rad μδ) t).2.1 / √(dot (spacePosition α δ r v (rad μα) (rad μδ) t) (spacePosition α δ r v (rad μα) (rad μδ) t)),
+         (spacePosition α δ r v (rad μα) (rad μδ) t).2.2 / √(dot (spacePosition α δ r v (rad μα) (rad μδ) t) (spacePosition α δ r v (rad μα) (rad μδ) t))) ∧
+      -90 ≤ dec ∧ dec ≤ 90 := by
+  set P := spacePosition α δ r v (rad μα) (rad μδ) t with hP
+  have e977 : (977792.0 : ℝ) = 977792 := by norm_num
+  have kx := m_div_ok (x := r * pcos (a_rad δ) * pcos (a_rad α)) hr
+  have ky := m_div_ok (x := r * pcos (a_rad δ) * psin (a_rad α)) hr
+  have kz := m_div_ok (x := r * psin (a_rad δ)) hr
+  have hx : r * pcos (a_rad δ) * pcos (a_rad α) + t * (r * pcos (a_rad δ) * pcos (a_rad α) / r * (v / 977792.0)
+      - r * psin (a_rad δ) * a_rad μδ * pcos (a_rad α) - r * pcos (a_rad δ) * psin (a_rad α) * a_rad μα) = P.1 := by
+    rw [hP, e977]; simp only [spacePosition, dir, northV, eastV, psin, pcos, a_rad_eq]; field_simp; ring
+  have hy : r * pcos (a_rad δ) * psin (a_rad α) + t * (r * pcos (a_rad δ) * psin (a_rad α) / r * (v / 977792.0)
+      - r * psin (a_rad δ) * a_rad μδ * psin (a_rad α) + r * pcos (a_rad δ) * pcos (a_rad α) * a_rad μα) = P.2.1 := by
+    rw [hP, e977]; simp only [spacePosition, dir, northV, eastV, psin, pcos, a_rad_eq]; field_simp; ring
+  have hz : r * psin (a_rad δ) + t * (r * psin (a_rad δ) / r * (v / 977792.0)
+      + r * a_rad μδ * pcos (a_rad δ)) = P.2.2 := by
+    rw [hP, e977]; simp only [spacePosition, dir, northV, eastV, psin, pcos, a_rad_eq]; field_simp; ring
+  have hsq : 0 < √(P.1 ^ 2 + P.2.1 ^ 2) := sqrt_pos.mpr hρ
+  have kq := m_div_ok (x := P.2.2) hsq.ne'
+  unfold motion_in_space
+  simp only [kx, ky, kz, bind, Except.bind, pure, Except.pure, hx, hy, hz]
+  have hpp : psqrt (P.1 * P.1 + P.2.1 * P.2.1) = √(P.1 ^ 2 + P.2.1 ^ 2) := by
+    unfold psqrt; congr 1; ring
+  simp only [hpp, kq]
+  refine ⟨_, _, rfl, ?_, ?_⟩
+  · rw [dir_of_rad]
+    obtain ⟨h1, h2⟩ := Lemmas.Sphere.norm_mul_cos_sin_arg P.1 P.2.1
+    set ρ := √(P.1 ^ 2 + P.2.1 ^ 2) with hρdef
+    have hN : dot P P = ρ ^ 2 + P.2.2 ^ 2 := by
+      rw [hρdef, sq_sqrt hρ.le]; unfold dot; ring
+    have hNpos : 0 < dot P P := by rw [hN]; positivity
+    have hroot : √(1 + (P.2.2 / ρ) ^ 2) = √(dot P P) / ρ := by
+      rw [hN, show 1 + (P.2.2 / ρ) ^ 2 = (ρ ^ 2 + P.2.2 ^ 2) / ρ ^ 2 by field_simp,
+        sqrt_div (by positivity), sqrt_sq hsq.le]
+    have hsN : 0 < √(dot P P) := sqrt_pos.mpr hNpos
+    unfold patan patan2
+    rw [cos_arctan, sin_arctan, hroot]
+    generalize Complex.arg ⟨P.1, P.2.1⟩ = A at h1 h2 ⊢
+    ext
+    · simp only; rw [← h1]; field_simp
+    · simp only; rw [← h2]; field_simp
+    · simp only; field_simp
+  · unfold patan
+    have h1 := neg_pi_div_two_lt_arctan (P.2.2 / √(P.1 ^ 2 + P.2.1 ^ 2))
+    have h2 := arctan_lt_pi_div_two (P.2.2 / √(P.1 ^ 2 + P.2.1 ^ 2))
+    have hab : |arctan (P.2.2 / √(P.1 ^ 2 + P.2.1 ^ 2))| < 2 * π := by
+      rw [abs_lt]; constructor <;> linarith [pi_pos]
+    apply a_of_rad_bounds hab <;> linarith
 end Pymeeus.Refine.Coords
